@@ -88,6 +88,8 @@ func Dot(spec *Spec, w io.WriteCloser, fromNode, toNode string) error {
 		style := "filled"
 		if n.Action != nil || n.ActionSource != nil {
 			shape = "note"
+		}
+		if n.ActionSource != nil {
 			var src string
 			x := n.ActionSource.Source
 			if s, is := x.(string); is {
